@@ -147,3 +147,15 @@ CHECKS["C20"] = dict(
         "an unsubscription that overlaps the close may legitimately see 0 or 1 calls",
     ],
 )
+
+CHECKS["C04"] = dict(
+    parts=[dict(pkg="net", run="^TestC04_")], level="exploration",
+    quick=dict(shards=8, checks=150, timeout=900),
+    thorough=dict(shards=16, checks=4000, timeout=3000),
+    assumptions=[
+        "handler statuses have non-empty codes; an OK status carries no message (the client returns the canonical OK); results are valid spec values",
+        "only status code and message are transported (Go error values are not, by design)",
+        "for single-byte corruptions of a reply, 'malformed' is decided by reading the bytes through the codec's dynamic API (its leniency about integer width, table order and terminators is not a C04 matter)",
+        "lost-connection behaviour of calls is exercised by C09's sessions with the same oracle",
+    ],
+)
